@@ -440,6 +440,20 @@ class SimCluster:
                         key=keystr(k),
                         input=keystr(d),
                     ) from e
+            # no element changed - but did flox itself try to write into its input?  Then the task fails
+            # whenever that input arrives as a read-only buffer (as it does after a network transfer).
+            import traceback as _tb
+
+            frames = _tb.extract_tb(e.__traceback__)
+            if frames and "/flox/" in frames[-1].filename.replace("\\", "/"):
+                fr = frames[-1]
+                raise Violation(
+                    "mutation",
+                    f"task {keystr(k)} writes into one of its inputs at {fr.filename.rsplit('/', 1)[-1]}:{fr.lineno} in {fr.name} "
+                    f"(`{(fr.line or '').strip()}`): no element changes on writable copies, but the task raises "
+                    f"'{e}' when the input is a read-only buffer (as after a network transfer or np.broadcast_to)",
+                    key=keystr(k), readonly_attempt=True,
+                ) from e
             st["readonly_spurious"] += 1
             log.add(f"{s} {clock} RO-WRITE {keystr(k)} w{w} spurious")
             return result
